@@ -223,7 +223,99 @@ func checkC20(c *Ctx) {
 		}
 	}
 
+	// ---- C20.6 a save that reports success replaced the file: every nil return of saveClientConf lies behind the Rename
+	// (directly or in the helper that writes and renames) - there is no "nothing to do" shortcut whose bookkeeping can
+	// drift from what is on disk (a digest / dirty flag recorded before the write succeeded makes the retry of a failed
+	// store a silent no-op, and the file is then neither the previous nor the new configuration)
+	r.Rule("C20.6", "saveClientConf reports success only after the rename", 1)
+	if f := c.fn("C20.6", pkg, "assets", "saveClientConf"); f != nil {
+		rnL, okR := findOneDeep(f, nameIs("os.Rename"))
+		if !okR {
+			r.Unk("C20.6", "saveClientConf: Rename", f.Pos(), fnName(f), "no os.Rename reachable")
+		} else {
+			site := rnL.site()
+			isOK := func(in ssa.Instruction) bool {
+				ret, ok := in.(*ssa.Return)
+				if !ok || len(ret.Results) != 1 || ret.Block().Comment == "recover" {
+					return false
+				}
+				v := returnedValue(ret, 0, nil)
+				if cst, isC := v.(*ssa.Const); isC {
+					return cst.Value == nil
+				}
+				// the helper's / Rename's own result is returned: that path went through the site
+				return false
+			}
+			skip, w := reach(f, nil, isOK, isInstr(site), nil)
+			if skip {
+				r.Bad("C20.6", "saveClientConf: a nil return is reachable without the rename", site.Pos(), fnName(f),
+					"saveClientConf can report success without having replaced the file (a shortcut for 'unchanged' configurations): whatever it compares with can be out of step with the file - after a failed store the retry is skipped, the caller is told the new configuration is stored, and the file on disk is neither the previous nor the new one", r.blockPath(f, w)...)
+			} else {
+				r.OK("C20.6", "saveClientConf: every nil return lies behind the rename", site.Pos(), "no constant-nil return reachable from the entry without passing "+instrText(site))
+			}
+		}
+	}
+
 	r.Rule("C20.3", "SetClientConf rolls the in-memory configuration back when the save fails", 1)
+	// ... all of it: every field of the assets object that SetClientConf (or a method it calls on the same object)
+	// writes before the save is written again on the failure path - state derived from the configuration (an index, a
+	// cached view) that is rebuilt for the new configuration must not survive the rollback
+	if f := c.fn("C20.3", pkg, "assets", "SetClientConf"); f != nil {
+		var save *ssa.Call
+		for _, ci := range callsIn(f, shortIs("saveClientConf")) {
+			save = ci.(*ssa.Call)
+		}
+		if save != nil && len(f.Params) > 0 {
+			recv := f.Params[0]
+			written := func(in ssa.Instruction) []string {
+				var out []string
+				switch x := in.(type) {
+				case *ssa.Store:
+					if fa, ok := x.Addr.(*ssa.FieldAddr); ok && fa.X == ssa.Value(recv) {
+						out = append(out, fieldName(fa.X.Type(), fa.Field))
+					}
+				case *ssa.Call:
+					if hc := helperCallee(f, &x.Call); hc != nil && hc != save.Call.StaticCallee() && len(x.Call.Args) > 0 && x.Call.Args[0] == ssa.Value(recv) && len(hc.Params) > 0 {
+						eachInstr(hc, func(in2 ssa.Instruction) {
+							if st, ok := in2.(*ssa.Store); ok {
+								if fa, ok := st.Addr.(*ssa.FieldAddr); ok && fa.X == ssa.Value(hc.Params[0]) {
+									out = append(out, fieldName(fa.X.Type(), fa.Field))
+								}
+							}
+						})
+					}
+				}
+				return out
+			}
+			before, after := map[string]bool{}, map[string]bool{}
+			eachInstr(f, func(in ssa.Instruction) {
+				ws := written(in)
+				if len(ws) == 0 {
+					return
+				}
+				if guarded(f, in, errAtoms(save, false)...) {
+					for _, w := range ws {
+						after[w] = true
+					}
+					return
+				}
+				if ok, _ := reach(f, in, isInstr(save), nil, nil); ok {
+					for _, w := range ws {
+						before[w] = true
+					}
+				}
+			})
+			var missing []string
+			for w := range before {
+				if !after[w] {
+					missing = append(missing, w)
+				}
+			}
+			sortStrings(missing)
+			r.Check(len(missing) == 0, "C20.3", "SetClientConf: everything written before the save is put back when it fails", save.Pos(), fnName(f), fmt.Sprintf("written before the save: %v; on the failure path: %v", keysOfB(before), keysOfB(after)),
+				"the failure path of SetClientConf does not put back "+strings.Join(missing, ", ")+", which was rewritten for the new configuration before the save: after a failed replacement part of the in-memory state (what the decoy getters answer from) still belongs to the configuration that was never stored")
+		}
+	}
 	if f := c.fn("C20.3", pkg, "assets", "SetClientConf"); f != nil {
 		stores := fieldStores(f, "assets.assets", "config")
 		var save *ssa.Call
@@ -804,3 +896,4 @@ func structHelperField(f *ssa.Function, v ssa.Value) (ssa.Value, *ssa.Function) 
 	}
 	return val, h
 }
+
